@@ -33,6 +33,8 @@ void verif_assume_fail(const char *file, int line);
 #define __CPROVER_assigns(...)
 #define __CPROVER_frees(...)
 #define __CPROVER_havoc_object(p) ((void)0)
+#define __CPROVER_same_object(a, b) (1)
+#define __CPROVER_POINTER_OFFSET(p) (0)
 #define __CPROVER_havoc_slice(p, n) ((void)0)
 
 #else /* goto-cc */
